@@ -525,6 +525,9 @@ pub fn zoo() -> Vec<Entry> {
 	// strings and holders
 	add!(v; full: (Box<()>, Box<u8>), Vec<Box<()>>, (Rc<PhantomData<u32>>, Arc<[u16; 0]>, Vec<Vec<u8>>), [Box<()>; 4], (Box<()>, Box<()>, Box<Box<u8>>),
 		BTreeMap<u8, Box<()>>, (Arc<()>, Vec<Option<Box<u16>>>));
+	add!(v; full: Vec<RangeInclusive<u32>>, Option<RangeInclusive<i64>>, (u8, RangeInclusive<u16>), BTreeMap<u8, RangeInclusive<u8>>, [RangeInclusive<u8>; 2],
+		Box<RangeInclusive<u128>>, Option<Range<u8>>, Vec<RangeInclusive<String>>, (Range<u32>, RangeInclusive<u32>),
+		(u8, Duration, u8), Vec<(OptionBool, Option<bool>)>, Result<Duration, RangeInclusive<u8>>);
 	add!(v; full: String, Box<u32>, Box<String>, Box<[u8; 100]>, Box<Vec<u16>>, Box<()>, Rc<u64>, Rc<Vec<u8>>, Rc<[u32; 4]>,
 		Arc<u16>, Arc<String>, Arc<(u8, Vec<u8>)>, Box<Box<u8>>, Box<Option<Box<u16>>>, Rc<Arc<Box<u32>>>,
 		Box<[Box<u16>; 5]>, Vec<Box<u8>>, Option<Box<[u64; 3]>>);
@@ -559,7 +562,8 @@ pub fn zoo() -> Vec<Entry> {
 		add!(v; codec: GenericArray<u8, U0>, GenericArray<u8, U1>, GenericArray<u16, U3>, GenericArray<u32, U7>,
 			GenericArray<u8, U32>, GenericArray<String, U3>, GenericArray<Option<u16>, U7>, Vec<GenericArray<u8, U3>>,
 			GenericArray<Vec<u8>, U3>, GenericArray<u64, U32>, Option<GenericArray<u16, U3>>, GenericArray<GenericArray<u8, U3>, U3>,
-			Box<GenericArray<u32, U7>>);
+			Box<GenericArray<u32, U7>>, GenericArray<bool, U4>, GenericArray<Compact<u32>, U3>, Vec<GenericArray<Option<u8>, U3>>,
+			(GenericArray<Option<u16>, U2>, Vec<Vec<u8>>), GenericArray<(u8, bool), U2>, GenericArray<Box<u8>, U3>, Box<GenericArray<Vec<u16>, U3>>);
 	}
 	#[cfg(feature = "derive")]
 	{
